@@ -334,6 +334,65 @@ theorem aborted_argument (st : HState K V) (k : K) (vs : List V) (l : List (K ×
   · simp [hstep, OMD.update, OMD.setAll, HArg.resolve]
   · simp [hstep, OMD.updateExtend, OMD.addAll, HState.withS, HArg.resolve]
 
+/-- a mapping argument whose `keys()` / `__getitem__` raises after delivering the items `l`: `update` has
+    then assigned exactly `l` (as if `update(dict(l))` had been called); a call that raises on its
+    first look at the argument (unhashable key, not iterable, too many arguments) has changed nothing.
+    Malformed ITEMS (not pairs, unhashable keys) in an iterable of pairs raise at the unpacking / at
+    the `seen` test, before the item is looked at further: they are `updateAbort` / `updateExtendAbort`
+    with the well-formed prefix. -/
+theorem aborted_mapping_argument (st : HState K V) (l : List (K × V)) :
+    hstep st (.updateMapAbort l) = ((hstep st (.update (.mapping l) [])).1, .abort) ∧
+    hstep st .rejected = (st, .abort) := by
+  refine ⟨?_, rfl⟩
+  simp [hstep, OMD.update, OMD.setAll, HArg.resolve]
+
+/-- whatever an argument does half way, the dictionary is consistent afterwards and still the plain
+    list of pairs (instances of `inv_step` / `refines_step`, spelled out for the aborting operations) -/
+theorem aborted_argument_consistent (st : HState K V) (hi : HInv st) (k : K) (vs : List V) (l : List (K × V)) :
+    ∀ op ∈ [HOp.addlistAbort k vs, .updateAbort l, .updateExtendAbort l, .updateMapAbort l, .rejected],
+      (hstep st op).2 = .abort ∧ HInv (hstep st op).1 ∧ ReadsAgree (hstep st op).1.s ∧
+        absH (hstep st op).1 = (Spec.hstep (absH st) op).1 := by
+  intro op hop
+  refine ⟨?_, inv_step st hi op, reads_agree _ (inv_step st hi op).s, (refines_step st hi op).1⟩
+  simp only [List.mem_cons, List.not_mem_nil, or_false] at hop
+  rcases hop with rfl | rfl | rfl | rfl | rfl <;> rfl
+
+/-! ## `fromkeys` and the view objects -/
+
+/-- `fromkeys(keys, default)` is a consistent dictionary with one pair per listed key, in order
+    (a key listed `n` times holds `default` `n` times); its `keys()` are the listed keys without repeats -/
+theorem fromkeys_spec (ks : List K) (d : V) :
+    Inv (OMD.fromkeys ks d) ∧ (OMD.fromkeys ks d).cells = ks.map (fun k => (k, d)) ∧
+    (OMD.fromkeys ks d).keys = dedup ks ∧
+    ∀ k, (OMD.fromkeys ks d).getlist k = List.replicate (ks.count k) d := by
+  have h := fromPairs_spec (ks.map fun k => (k, d))
+  refine ⟨h.1, h.2, ?_, fun k => ?_⟩
+  · show dedup ((OMD.fromPairs (ks.map fun k => (k, d))).cells.map (·.1)) = dedup ks
+    rw [h.2, List.map_map]; congr 1; simp [Function.comp_def]
+  · show (OMD.fromPairs (ks.map fun k => (k, d))).getlist k = _
+    rw [getlist_spec h.1, h.2, valsOf_mapConst]
+
+/-- the view objects (`viewkeys()` / `viewvalues()` / `viewitems()`) hold a reference to the
+    dictionary; iterating them, `len` and `in` are the readers of the dictionary's CURRENT state, so
+    they equal the reads of the plain list as it is now, and never raise -/
+theorem views_read_current_state [DecidableEq V] (s : OMD K V) (h : Inv s) :
+    s.viewKeysIter = Spec.keys s.cells ∧ s.viewLen = Spec.len s.cells ∧
+    (∀ k, s.viewKeysContains k = Spec.has k s.cells) ∧
+    s.viewValuesIter = .ok (Spec.values s.cells) ∧ s.viewItemsIter = .ok (Spec.items s.cells) ∧
+    (∀ k v, s.viewItemsContains k v = .ok (decide (Spec.last k s.cells = some v))) ∧
+    (∀ v, s.viewValuesContains v = .ok (decide (v ∈ Spec.values s.cells))) :=
+  ⟨rfl, len_spec h, contains_spec h, viewValuesIter_spec h, items_spec h, viewItemsContains_spec h,
+   fun v => by simp [OMD.viewValuesContains, viewValuesIter_spec h]⟩
+
+/-- … after every prefix of every history (a view taken at any time shows the state of the moment
+    it is used) -/
+theorem views_live_history [DecidableEq V] (ops : List (HOp K V)) (r : HState K V × Out K V)
+    (hr : r ∈ hrun (HState.init : HState K V) ops) :
+    r.1.s.viewItemsIter = .ok (Spec.items r.1.s.cells) ∧ r.1.s.viewKeysIter = Spec.keys r.1.s.cells ∧
+    r.1.s.viewValuesIter = .ok (Spec.values r.1.s.cells) :=
+  have h := views_read_current_state r.1.s (inv_history ops r hr).s
+  ⟨h.2.2.2.2.1, h.1, h.2.2.2.1⟩
+
 /-! ## copies -/
 
 /-- `copy()`, `copy.copy`, `copy.deepcopy` and a pickle round trip (all: rebuild from
@@ -595,5 +654,16 @@ example : (⟨"dictutils", "add", true, true⟩ : Generated.C01.Method) ∈ Gene
     (⟨"urlutils", "__reversed__", false, false⟩ : Generated.C01.Method) ∈ Generated.C01.methods := by decide
 /-- what the first theorem excludes: a method that deletes from the dict and leaves the cells linked -/
 example : ¬ (∀ m ∈ [(⟨"dictutils", "__delitem__", true, false⟩ : Generated.C01.Method)], m.dictW = m.llW) := by decide
+
+/-- a mapping that raises half way, a rejected call, `fromkeys` with a repeated key, the views of an interleaved state -/
+example : ((hrun HState.init [.add 0 1, .add 1 2, .add 0 3, .updateMapAbort [(1, 5), (2, 6)], .rejected]).map
+    (fun r => (r.1.s.cells, r.2))) =
+    [([(0, 1)], .unit), ([(0, 1), (1, 2)], .unit), ([(0, 1), (1, 2), (0, 3)], .unit),
+     ([(0, 1), (0, 3), (1, 5), (2, 6)], .abort), ([(0, 1), (0, 3), (1, 5), (2, 6)], .abort)] := by decide
+example : (OMD.fromkeys [1, 2, 1] 7 : OMD Nat Nat).cells = [(1, 7), (2, 7), (1, 7)] ∧
+    (OMD.fromkeys [1, 2, 1] 7 : OMD Nat Nat).getlist 1 = [7, 7] := by decide
+example : (OMD.fromPairs [(0, 1), (1, 2), (0, 3)] : OMD Nat Nat).viewItemsIter = .ok [(0, 3), (1, 2)] ∧
+    (OMD.fromPairs [(0, 1), (1, 2), (0, 3)] : OMD Nat Nat).viewItemsContains 0 1 = .ok false ∧
+    (OMD.fromPairs [(0, 1), (1, 2), (0, 3)] : OMD Nat Nat).viewValuesContains 3 = .ok true := ⟨rfl, rfl, rfl⟩
 
 end C01
